@@ -5,5 +5,5 @@ here="$(dirname "$(dirname "$(readlink -f "$0")")")"
 out="$(mktemp -d /tmp/sweep-XXXXXX)"
 jobs=${JOBS:-8}
 for s in "$@"; do for p in C01 C02 C03 C04 C05 C06 C07 C08 C09 C10 C11 C12 C13 C14 C15 C16 C17 C18 C19 C20; do echo "$s $p"; done; done | \
-  xargs -P "$jobs" -L 1 bash -c 'VERIF_SEED=$0 VERIF_OUT='"$out"' VERIF_JOBS=2 '"$here"'/vcheck $1 --tier '"$tier"' 2>&1 | grep -E "VIOLATION|mechanism=|INCONCLUSIVE|: (held|violated|inconclusive)" | cut -c1-260 | sed "s/^/[seed $0] /"' | grep -v ": held" 
+  xargs -P "$jobs" -L 1 bash -c 'VERIF_SEED=$0 VERIF_OUT='"$out"' VERIF_JOBS=2 '"$here"'/vcheck $1 --tier '"$tier"' 2>&1 | grep -a -E "VIOLATION|mechanism=|INCONCLUSIVE|: (held|violated|inconclusive)" | cut -c1-260 | sed "s/^/[seed $0] /"' | grep -v ": held" 
 echo "sweep done ($tier: $*)"; rm -rf "$out"
